@@ -83,6 +83,7 @@ func classify(err error) string {
 		{"chainconfig height:", "nomap"},
 		{"more than 6/7 len vbftPeerInfo", "fewbk"},
 		{"invalid pubkey", "nonmember"},
+		{"duplicate bookkeeper", "dupbk"},
 		{"verify header error height", "fewmembers"},
 		{"not enough signatures", "sigcount"},
 		{"invalid signature data", "sigdata"},
